@@ -198,7 +198,11 @@ impl Pca<f64> {
         &self,
         prediction: ArrayBase<ndarray::OwnedRepr<f64>, ndarray::Dim<[usize; 2]>>,
     ) -> ArrayBase<ndarray::OwnedRepr<f64>, ndarray::Dim<[usize; 2]>> {
-        prediction.dot(&self.embedding) + &self.mean
+        // the rows of a whitened embedding have squared norm (n - 1) / sigma^2 instead of 1:
+        // dividing by the squared row norms makes this the inverse of `predict` on the
+        // component subspace in both cases
+        let sq_norms = self.embedding.map_axis(Axis(1), |row| row.dot(&row));
+        (prediction / &sq_norms).dot(&self.embedding) + &self.mean
     }
 }
 
